@@ -307,7 +307,10 @@ def print_assumptions(tops):
         r = run(['timeout', '300', 'coqc', '-Q', 'theories', 'Segno', '-Q', 'build/gen', 'SegnoSrc',
                  '-w', '-notation-overridden', '-o', os.path.join(BUILD, 'logs', os.path.basename(t) + 'o'), t], timeout=320)
         text = r.stdout
-        src = open(os.path.join(VERIF, t)).read()
+        if r.returncode == 124:
+            # the re-run was cut off by the time limit on a loaded machine: a harness problem, not an unproved theorem
+            raise RuntimeError('coqc %s (Print Assumptions re-run) exceeded its time limit' % t)
+        src = open(os.path.join(VERIF, t), encoding='utf-8').read()
         thms = re.findall(r'Print Assumptions (\w+)\.', src)
         chunks = re.split(r'(?=Closed under the global context|Axioms:)', text)
         chunks = [c for c in chunks if c.startswith(('Closed', 'Axioms:'))]
@@ -344,7 +347,7 @@ def forbidden_scan():
                      r'Unset Positivity Checking|Unset Universe Checking|type-in-type|impredicative-set)\b')
     hits = []
     for f in coq_sources():
-        txt = open(os.path.join(VERIF, f)).read()
+        txt = open(os.path.join(VERIF, f), encoding='utf-8').read()
         txt = re.sub(r'\(\*.*?\*\)', '', txt, flags=re.S)
         for m in pat.finditer(txt):
             hits.append('%s: %s' % (f, m.group(0)))
@@ -359,19 +362,14 @@ def oracle(lines, timeout=3600):
     """Feed request lines to the extracted model/spec binary; returns the list of answer lines."""
     exe = os.path.join(BUILD, 'oracle')
     data = '\n'.join(lines) + '\n'
-    def limit():   # an answer never needs more; a runaway evaluation must not take the machine down
-        import resource
-        gb = int(os.environ.get('VERIF_ORACLE_GB', '6'))
-        resource.setrlimit(resource.RLIMIT_AS, (gb << 30, gb << 30))
-        try:       # extracted list functions are not tail recursive: long documents need a deep stack
-            soft, hard = resource.getrlimit(resource.RLIMIT_STACK)
-            resource.setrlimit(resource.RLIMIT_STACK, (hard, hard))
-        except (ValueError, OSError):
-            pass
+    # resource limits through the shell (no preexec_fn: forking with a Python callback from a thread pool can deadlock):
+    # an answer never needs more than a few GB, and a runaway evaluation must not take the machine down; the extracted
+    # list functions are not tail recursive, so long documents need a deep stack
+    gb = int(os.environ.get('VERIF_ORACLE_GB', '6'))
+    cmd = ['sh', '-c', 'ulimit -v %d; ulimit -s unlimited 2>/dev/null || ulimit -s $(ulimit -Hs) 2>/dev/null; exec "$0"' % (gb << 20), exe]
     for attempt in range(3):
         try:
-            r = subprocess.run([exe], input=data, stdout=subprocess.PIPE, stderr=subprocess.PIPE, text=True, timeout=timeout,
-                               preexec_fn=limit)
+            r = subprocess.run(cmd, input=data, stdout=subprocess.PIPE, stderr=subprocess.PIPE, text=True, timeout=timeout)
         except OSError as ex:      # e.g. ETXTBSY while a concurrent check re-links the binary
             r = subprocess.CompletedProcess([exe], 126, '', str(ex))
         if r.returncode == 0:
@@ -390,9 +388,10 @@ def oracle(lines, timeout=3600):
                            % (r.returncode, lines[0][:120], lines[0][-80:], r.stderr[-300:]))
     out = r.stdout.splitlines()
     for q, a in zip(lines, out):
-        if a.startswith('ERR Stack overflow') or a.startswith('ERR Out of memory'):
-            # a resource limit of the evaluator, never a verdict about the implementation
-            raise RuntimeError('oracle ran out of resources (%s) on request %s ...' % (a, q[:200]))
+        if a.startswith('XERR'):
+            # an exception of the evaluator itself (resource limit, malformed request, request outside what the driver
+            # models): a defect of the harness, never a verdict about the implementation ("ERR <class>" is a model refusal)
+            raise RuntimeError('oracle could not evaluate a request (%s): %s ...' % (a[:120], q[:200]))
     if len(out) != len(lines):
         raise RuntimeError('oracle answered %d lines for %d requests' % (len(out), len(lines)))
     return out
